@@ -26,7 +26,7 @@ MODES = ['notready', 'statusfail', 'rtfail', 'pushfail', 'rt2fail', 'stale', 'pu
 
 
 def step(a, **k):
-    d = dict(a=a, i=0, t=0, series=0, total=0, on=False, modes=[], postFail=[], failScale=0, place=[])
+    d = dict(a=a, i=0, t=0, series=0, total=0, on=False, modes=[], postFail=[], rej=[], failScale=0, place=[])
     d.update(k)
     return d
 
@@ -66,6 +66,8 @@ def gen_transfer_schedule(rnd, idn, faults):
     kind = rnd.choice(['lost', 'shrink', 'recreate', 'restart', 'none']) if faults else 'none'
     if kind == 'lost':
         c['postFail'] = [False, True, False, False]
+        if rnd.random() < 0.5:
+            c['rej'] = list(c['postFail'])     # ... refused by the sidecar: its reload of Prometheus failed
     st.append(c)
     if kind in ('none', 'restart') and rnd.random() < 0.5:
         # the hand-over at its edge: the source has scraped three times, the destination twice, and the next cycle
@@ -140,6 +142,8 @@ def gen_placement_schedule(rnd, idn, faults):
         c = step('cycle')
         c['postFail'] = [False] * MAXN
         c['postFail'][rnd.randrange(nsh0)] = True
+        if rnd.random() < 0.5:
+            c['rej'] = list(c['postFail'])
         st.append(c)
         for i in range(1, nsh0 + 1):
             st.append(step('scrape', i=i))
@@ -252,6 +256,8 @@ def gen_schedule(rnd, idn, faults, handover=False):
             elif kind == 'post':
                 c['postFail'] = [False] * MAXN
                 c['postFail'][rnd.randrange(MAXN)] = True
+                if rnd.random() < 0.5:
+                    c['rej'] = list(c['postFail'])
             else:
                 c['failScale'] = rnd.choice([1, 2])
         st.append(c)
@@ -444,7 +450,7 @@ CHECK_DEADLOCK FALSE
         for r in C.read_ndjson(os.path.join(gd, 'sched.ndjson')):
             st = [dict(x) for x in r['steps']]
             for x in st:
-                x['modes'], x['postFail'], x['place'] = list(x['modes']), list(x['postFail']), [dict(p) for p in x['place']]
+                x['modes'], x['postFail'], x['rej'], x['place'] = list(x['modes']), list(x['postFail']), list(x.get('rej') or []), [dict(p) for p in x['place']]
             quiet_from = len(st) + 1
             # a target that is down stays down; one that is discovered stays discovered
             for t in range(1, NT + 1):
